@@ -83,7 +83,7 @@ inductive V where
   | tvar (name : String) (vs : List V)
   | svar (name : String) (fs : List (String × V))
   | err (chain : List String) (dbg : String)          -- `impl Error`: Display of the error and of each `source()`
-  | opaque (disp : Option String) (dbg : Option String)  -- a type that only implements Display and/or Debug
+  | fmtOnly (disp : Option String) (dbg : Option String)  -- a type that only implements Display and/or Debug
   | level (text : String)                             -- `emit::Level`
   | traceId (n : Nat)                                 -- `emit::span::TraceId`
   | spanId (n : Nat)                                  -- `emit::span::SpanId`
@@ -132,7 +132,7 @@ def V.display? : V → Option String
   | .char c _ => some (String.singleton c)
   | .str _ s _ => some s
   | .err chain _ => chain.head?
-  | .opaque d _ => d
+  | .fmtOnly d _ => d
   | .level t => some t
   | .traceId n => some (traceIdText n)
   | .spanId n => some (spanIdText n)
@@ -164,7 +164,7 @@ mutual
     | .tvar n vs => n ++ "(" ++ commaSpaceSep (debugList vs) ++ ")"
     | .svar n fs => n ++ " { " ++ commaSpaceSep (debugFields fs) ++ " }"
     | .err _ d => d
-    | .opaque _ d => d.getD ""
+    | .fmtOnly _ d => d.getD ""
     | .level t => t                                   -- src/level.rs:104 (Debug = Display)
     | .traceId n => "\"" ++ traceIdText n ++ "\""     -- src/span.rs:50 (Debug of the hex str)
     | .spanId n => "\"" ++ spanIdText n ++ "\""
@@ -179,9 +179,9 @@ mutual
     | (f, v) :: fs => (f ++ ": " ++ v.debugText) :: debugFields fs
 end
 
-/-- Has the Rust type a `Debug` impl (an `opaque` may lack it). -/
+/-- Has the Rust type a `Debug` impl (a `fmtOnly` type may lack it). -/
 def V.debug? : V → Option String
-  | .opaque _ d => d
+  | .fmtOnly _ d => d
   | v => some v.debugText
 
 /-- The serialization framework whose JSON writer looks at the value. -/
@@ -232,7 +232,7 @@ mutual
     | .tvar n vs => "{" ++ jsonStr n ++ ":[" ++ commaSep (jsonList fw broken vs) ++ "]}"
     | .svar n fs => "{" ++ jsonStr n ++ ":{" ++ commaSep (jsonFields fw broken fs) ++ "}}"
     | .err chain _ => jsonStr (chain.head?.getD "")
-    | .opaque d _ => jsonStr (d.getD "")
+    | .fmtOnly d _ => jsonStr (d.getD "")
     | .level t => jsonStr t                      -- serialized through Display (src/level.rs, src/span.rs:86-98)
     | .traceId n => jsonStr (traceIdText n)
     | .spanId n => jsonStr (spanIdText n)
@@ -303,7 +303,8 @@ inductive Cap where
   | empty                       -- `Internal::None`
   | display (text : String) (tid : Tid)   -- `Display` / `AnonDisplay` / buffered display: formats as `text`
   | debug (text : String) (tid : Tid)     -- `Debug` / `AnonDebug` / buffered debug
-  | error (chain : List String)           -- `Error` / `AnonError` / buffered error
+  | error (chain : List String)           -- `Error` / `AnonError` / buffered error (`OwnedError`)
+  | sharedError (chain : List String)     -- `SharedError` / `SharedRefError`: an `Arc<OwnedError>`
   | sval (v : V) (buffered : Bool) (tid : Tid)
   | serde (v : V) (buffered : Bool) (tid : Tid)
   deriving Repr, Inhabited
@@ -404,11 +405,11 @@ def Hook.structured : Hook → Bool
 
 /-- Does the type implement `serde::Serialize` and `sval::Value`? (`isize`/`usize` have no sval impl in sval 2.22.) -/
 def V.hasSerde : V → Bool
-  | .err _ _ | .opaque _ _ => false
+  | .err _ _ | .fmtOnly _ _ => false
   | _ => true
 
 def V.hasSval : V → Bool
-  | .err _ _ | .opaque _ _ => false
+  | .err _ _ | .fmtOnly _ _ => false
   | .int .isize _ | .int .usize _ => false
   | _ => true
 
@@ -558,7 +559,7 @@ def Cap.cast : Cap → Cast
   | .char c _ => .char c
   | .str s _ => .str s true
   | .empty => .nothing
-  | .display _ _ | .debug _ _ | .error _ => .nothing
+  | .display _ _ | .debug _ _ | .error _ | .sharedError _ => .nothing
   | .sval v b _ => leafCast .sval b v
   | .serde v b _ => leafCast .serde b v
 
@@ -627,6 +628,8 @@ def Cap.toDisplay : Cap → Option String
     | [] => some ""
     | [e] => some e
     | e :: rest => some (e ++ " (" ++ rest.getLast?.getD "" ++ ")")
+  -- `to_borrowed_error` is `None` for a shared error, so only the error's own Display is shown
+  | .sharedError chain => some (chain.head?.getD "")
   | .sval _ _ _ | .serde _ _ _ => none
 
 /-- `Debug for ValueBag` (vb:internal/fmt.rs:147-272): primitives with `Debug`, a display capture shows its
@@ -642,7 +645,7 @@ def Cap.toDebug : Cap → Option String
   | .empty => some "None"
   | .display t _ => some t
   | .debug t _ => some t
-  | .error _ => none
+  | .error _ | .sharedError _ => none
   | .sval _ _ _ | .serde _ _ _ => none
 
 /-- `serde_json::to_string(&value)` (vb:internal/serde/v1.rs:122-277): primitives as themselves, display / debug /
@@ -659,7 +662,7 @@ def Cap.serdeJson : Cap → String
   | .empty => "null"
   | .display t _ => jsonStr t
   | .debug t _ => jsonStr t
-  | .error chain => jsonStr (chain.head?.getD "")
+  | .error chain | .sharedError chain => jsonStr (chain.head?.getD "")
   | .serde v _ _ => v.json .serde false true
   | .sval v _ _ => v.json .serde true true
 
@@ -675,11 +678,13 @@ def Cap.svalJson : Cap → String
   | .empty => "null"
   | .display t _ => jsonStr t
   | .debug t _ => jsonStr t
-  | .error chain => jsonStr (chain.head?.getD "")
+  | .error chain | .sharedError chain => jsonStr (chain.head?.getD "")
   | .serde v _ _ => v.json .sval false true
   | .sval v _ _ => v.json .sval false true
 
-/-- `to_borrowed_error` and its `source()` chain, each shown with Display. -/
+/-- `to_borrowed_error` (core/src/value.rs:215 → vb:internal/error.rs:29-36) and its `source()` chain, each shown
+    with Display. value_bag looks at `Internal::Error` and `AnonError` only: an error behind an `Arc` (after
+    `to_shared`) is no longer reachable as an error. -/
 def Cap.chain : Cap → Option (List String)
   | .error chain => some chain
   | _ => none
@@ -708,8 +713,11 @@ def toOwned : Cap → Cap
   | c => c
 
 /-- `Value::to_shared` = `to_owned().into_shared()` (vb:owned.rs; vb:internal/owned.rs:105-145): the buffers move
-    into `Arc`s, nothing observable changes. -/
-def toShared (c : Cap) : Cap := toOwned c
+    into `Arc`s. Nothing observable changes — except for errors (see `Cap.chain`). -/
+def toShared (c : Cap) : Cap :=
+  match toOwned c with
+  | .error chain => .sharedError chain
+  | c => c
 
 /-- `ThreadLocalValue::from_value` then `to_value` (src/platform/thread_local_ctxt.rs:70-95): trace and span ids
     are kept typed (and re-captured with `capture_display`), everything else is `to_shared`. -/
@@ -730,14 +738,22 @@ inductive Path where
   | ctxtRoot     -- `open_root`
   | ctxtNested   -- a further frame pushed on top (the map is cloned)
   | ctxtThread   -- the frame moved to and entered on another thread
+  | emit         -- captured by `emit::emit!` itself, observed by the runtime's emitter through the erased event
+  | emitCtxt     -- pushed with `Frame::push` into the runtime's ambient context, observed by the emitter of a later `emit!`
   deriving DecidableEq, Repr
+
+/-- A path on which nothing is put behind an `Arc` (`to_shared`): read in place, erased, as the event a sink
+    receives, or copied into an owned value (also on another thread). -/
+def Path.unshared : Path → Bool
+  | .direct | .erased | .event | .emit | .owned | .ownedThread => true
+  | _ => false
 
 /-- `by_ref` keeps the variant (vb:internal/mod.rs:447-513), erased dispatch forwards `get`. -/
 def readVia : Path → Cap → Cap
-  | .direct, c | .erased, c | .event, c => c
+  | .direct, c | .erased, c | .event, c | .emit, c => c
   | .owned, c | .ownedThread, c => toOwned c
   | .shared, c => toShared c
-  | .ctxtPush, c | .ctxtRoot, c | .ctxtNested, c | .ctxtThread, c => ctxtStore c
+  | .ctxtPush, c | .ctxtRoot, c | .ctxtNested, c | .ctxtThread, c | .emitCtxt, c => ctxtStore c
 
 /-! ## Observations -/
 
